@@ -1,11 +1,13 @@
 import GbVerif.Model.JitSp
+import GbVerif.Model.JitPaths
 /-
 C01 (status returned by translated code): r14b is the status byte a translated block hands back to
 `Core::run_code_block`, which reads it by its class (STOP, HALT, DI, EI — delayed or immediate —, anything else = normal).
 A template writes r14b either with a status move (`mov r14b, imm`) or with the zero-flag idiom (`sete r14b ; ror r14b, 1`,
 values 0 / 0x80: class normal); a block starts with r14 = 0.  Over every path through the code of an instruction, the class
 of what the path leaves in r14b (normal if it leaves r14b alone) must be the class of the status the interpreter model
-returns for that instruction.
+returns for that instruction.  Walked by `JitPaths.paths`; soundness for executions of the x86 model:
+`Proofs/X86Status.lean`.
 -/
 namespace GbVerif.JitStatus
 open GbVerif.X86 GbVerif.JitCycles
@@ -13,42 +15,20 @@ open GbVerif.X86 GbVerif.JitCycles
 def statusClass (st : Nat) : Nat :=
   if st == 1 then 1 else if st == 2 then 2 else if st == 3 then 3 else if st == 4 || st == 5 then 4 else 0
 
-/-- status classes over the paths from instruction `i` to the end of the code; `cur` = class of what r14b holds now
-(0 = untouched so far or idiom value) -/
-def pathClasses (code : List (Nat × Instr)) (endOff : Nat) : Nat → Nat → Nat → Option (List Nat)
-  | _, 0, _ => none
-  | i, fuel+1, cur =>
-    match code[i]? with
-    | none => if i == code.length then some [cur] else none
-    | some (_, ins) =>
-      let nextOff := match code[i+1]? with | some (o, _) => o | none => endOff
-      match ins with
-      | .jcc _ rel =>
-        if rel ≥ 128 then none else
-        match indexOf code endOff (nextOff + rel) with
-        | some j => if j ≤ i then none else
-          match pathClasses code endOff (i+1) fuel cur, pathClasses code endOff j fuel cur with
-          | some a, some b => some (a ++ b)
-          | _, _ => none
-        | none => none
-      | .jmp rel =>
-        if rel ≥ 128 then none else
-        match indexOf code endOff (nextOff + rel) with
-        | some j => if j ≤ i then none else pathClasses code endOff j fuel cur
-        | none => none
-      | .mov8i (.lo 14) v => if v ≥ 256 then none else pathClasses code endOff (i+1) fuel (statusClass v)
-      | .sete (.lo 14) =>
-        -- the idiom: must be followed at once by `ror r14b, 1`
-        match code[i+1]? with
-        | some (_, .sh8 .ror (.lo 14) 1) => pathClasses code endOff (i+2) fuel 0
-        | _ => none
-      | .sh8 _ (.lo 14) _ => none
-      | _ => pathClasses code endOff (i+1) fuel cur
+/-- abstract state: the class of what r14b holds now (0 = untouched so far or idiom value); 100 = `sete r14b` has just
+run and the `ror r14b, 1` of the idiom must come next -/
+def pending : Nat := 100
+
+/-- transfer function; any other write to r14 is refused, and so is anything but the rotate after `sete r14b` -/
+def trSt (ins : Instr) (cur : Nat) : Option Nat :=
+  match ins with
+  | .mov8i (.lo 14) v => if cur == pending || v ≥ 256 then none else some (statusClass v)
+  | .sete (.lo 14) => if cur == pending then none else some pending
+  | .sh8 .ror (.lo 14) 1 => if cur == pending then some 0 else none
+  | ins => if cur == pending || destReg ins == some 14 then none else some cur
 
 def jitStatus (tokens : List Nat) : Option (List Nat) :=
-  match decodeCode tokens with
-  | none => none
-  | some code => (pathClasses code (bytesOf tokens) 0 (code.length + 2) 0).map norm
+  JitPaths.analyse trSt 0 (fun cur => if cur == pending then none else some cur) tokens
 
 def interpStatusWith (op : Op) (len f : Nat) : Option Nat :=
   match Interp.runOp nullBus op { af := f, sp := 0x8000 } () len with
